@@ -256,6 +256,62 @@ func unresolvedMethods(src []byte) string {
 		}
 	}
 	missing := ""
+	// ... and with respect to its own types: the emitted grammar value (the one
+	// package-level variable that is a composite literal with a `rules` field)
+	// is built from types of the emitted runtime only, so every type it names
+	// must be declared in the file.
+	types := map[string]bool{}
+	for _, d := range f.Decls {
+		if gd, ok := d.(*ast.GenDecl); ok && gd.Tok == token.TYPE {
+			for _, sp := range gd.Specs {
+				types[sp.(*ast.TypeSpec).Name.Name] = true
+			}
+		}
+	}
+	for _, d := range f.Decls {
+		gd, ok := d.(*ast.GenDecl)
+		if !ok || gd.Tok != token.VAR {
+			continue
+		}
+		for _, sp := range gd.Specs {
+			vs := sp.(*ast.ValueSpec)
+			if len(vs.Values) != 1 {
+				continue
+			}
+			v := vs.Values[0]
+			if u, ok := v.(*ast.UnaryExpr); ok && u.Op == token.AND {
+				v = u.X
+			}
+			cl, ok := v.(*ast.CompositeLit)
+			if !ok {
+				continue
+			}
+			isGrammar := false
+			for _, el := range cl.Elts {
+				if kv, ok := el.(*ast.KeyValueExpr); ok {
+					if id, ok := kv.Key.(*ast.Ident); ok && id.Name == "rules" {
+						isGrammar = true
+					}
+				}
+			}
+			if !isGrammar {
+				continue
+			}
+			ast.Inspect(cl, func(n ast.Node) bool {
+				c, ok := n.(*ast.CompositeLit)
+				if !ok || missing != "" {
+					return missing == ""
+				}
+				if id, ok := c.Type.(*ast.Ident); ok && !types[id.Name] {
+					missing = "type " + id.Name
+				}
+				return true
+			})
+		}
+	}
+	if missing != "" {
+		return missing
+	}
 	ast.Inspect(f, func(n ast.Node) bool {
 		sel, ok := n.(*ast.SelectorExpr)
 		if !ok || missing != "" {
@@ -303,7 +359,7 @@ func runRebuild(rebuild RebuildFunc, c *Case) (runs []Run) {
 		o1, o2, e1, e2 = rebuild(c, g)
 	}()
 	mk := func(o []byte, e string) Run {
-		r := Run{Stdout: sum(o), Stderr: sum([]byte(e)), StderrHead: e, OutLen: len(o), Panic: pan, Map: simmap.Snapshot()}
+		r := Run{Stdout: sum(o), Stderr: sum([]byte(e)), StderrHead: e, OutLen: len(o), Panic: pan, Map: simmap.Snapshot(), Sched: simtask.Snapshot()}
 		if e != "" {
 			r.Exit = 5
 		}
